@@ -844,6 +844,179 @@ theorem wait_returns_fair (X : Exec) (hf : X.Fair) {N : Nat} (ha : X.AddsStopAt 
   obtain ⟨hw, hnf⟩ := hh n hn r v hv
   exact conc_quiescent_complete (exec_reachable X n) hq hv hw hnf
 
+/-- every created monitor of every cascade has been handed to `AddEvent`, and the pool has a worker -/
+def _root_.Ecal.Cascade.Conc.allHanded (C : Conc) : Prop :=
+  ∀ r v, C.view r = some v → 0 < v.workers ∧ ∀ m ∈ v.mons, m.phase ≠ .fresh
+
+/-- an event that adds no work keeps "all monitors handed over": engine steps create no monitor and
+    hand none back, `waitReturns`/`allErrors` do not touch the monitors -/
+theorem allHanded_step {C C' : Conc} {e : ConcEvent} (h : C.allHanded) (hadd : e.adds = false)
+    (hs : Conc.stepE C e = some C') : C'.allHanded := by
+  cases e with
+  | newRoot => simp [ConcEvent.adds] at hadd
+  | «at» r e0 =>
+    simp only [Conc.stepE] at hs
+    obtain ⟨v, v', hv, hstep, hv', hoth⟩ := conc_refines hs
+    intro r' w hw
+    by_cases hr : r' = r
+    · subst hr
+      rw [hv'] at hw
+      cases hw
+      obtain ⟨hwk, hnf⟩ := h r' v hv
+      refine ⟨by rw [workers_const hstep]; exact hwk, ?_⟩
+      cases hint : e0.internal with
+      | true => exact internal_no_new_fresh hint hstep hnf
+      | false =>
+        cases e0 with
+        | waitReturns =>
+          simp only [step] at hstep
+          split at hstep
+          · cases hstep; exact hnf
+          · cases hstep
+        | allErrors => simp only [step] at hstep; cases hstep; exact hnf
+        | register => simp [ConcEvent.adds] at hadd
+        | regHandler => simp [ConcEvent.adds] at hadd
+        | addEvent _ _ _ => simp [ConcEvent.adds] at hadd
+        | newChild _ => simp [ConcEvent.adds] at hadd
+        | pop _ _ => simp [Event.internal] at hint
+        | ruleReturns _ _ => simp [Event.internal] at hint
+        | taskDone _ => simp [Event.internal] at hint
+        | setErrors _ => simp [Event.internal] at hint
+        | errFinish _ => simp [Event.internal] at hint
+        | notified _ => simp [Event.internal] at hint
+        | dropQueue => simp [Event.internal] at hint
+        | post => simp [Event.internal] at hint
+        | observerRuns _ => simp [Event.internal] at hint
+    · rw [hoth r' hr] at hw
+      exact h r' w hw
+
+/-- once the program has stopped adding work and every monitor is handed over, it stays so -/
+theorem handed_stays_handed (X : Exec) {N : Nat} (ha : X.AddsStopAt N) (hN : (X.C N).allHanded) :
+    ∀ n, N ≤ n → (X.C n).allHanded := by
+  intro n hn
+  obtain ⟨d, rfl⟩ := Nat.exists_eq_add_of_le hn
+  induction d with
+  | zero => simpa using hN
+  | succ d ih =>
+    have hprev := ih (by omega)
+    have hnext := X.next (N + d)
+    rw [show N + (d + 1) = N + d + 1 by omega, hnext]
+    cases he : X.ev (N + d) with
+    | none => simpa using hprev
+    | some e =>
+      simp only
+      cases hs : Conc.stepE (X.C (N + d)) e with
+      | none => simpa using hprev
+      | some C' =>
+        simp only [Option.getD_some]
+        exact allHanded_step hprev (ha (N + d) (by omega) e he) hs
+
+/-- **the wait returns** — `wait_returns_fair` with the hand-over hypothesis needed only AT the tick `N`
+    at which the additions stop (it is an invariant from then on, `handed_stays_handed`): a fair
+    execution in which the program stops adding work at `N` with every monitor handed over reaches a
+    tick at which every cascade is complete, every waiter released with an exact report, every
+    registered finish handler run once. -/
+theorem wait_returns_fair_from (X : Exec) (hf : X.Fair) {N : Nat} (ha : X.AddsStopAt N) (hN : (X.C N).allHanded) :
+    ∃ n, N ≤ n ∧ ∀ r v, (X.C n).view r = some v →
+      (∀ m ∈ v.mons, m.phase.finished = true) ∧ v.posted = 1 ∧
+      (v.waiting = true → v.released = 1 ∧ ((step v .waitReturns).isSome = true ∨ v.waitReturned = true) ∧
+         allErrors v = expectedReport v) ∧
+      (v.handlerReg = true → v.handlerCalls = 1) :=
+  wait_returns_fair X hf ha (fun n hn r v hv => handed_stays_handed X ha hN n hn r v hv)
+
+/-- **where the fairness hypothesis comes from — interface to C09.** Fairness from tick `N` on
+    (`Exec.FairFrom`) follows from two separate assumptions:
+    * `Exec.SchedFairFrom N` — the Go scheduler: an enabled engine step other than a pop (a worker
+      inside a task, the poster, a pending callback) is eventually followed by an engine step (F1 in
+      the header of `Ecal.Props.C09`; assumed);
+    * `Exec.PoolStartsFrom N` — the pool: whenever a task is queued, later a worker pops a task or a
+      worker is inside a task. THIS is what C09 proves about the repaired pool, stated on C09's own
+      transition system (`Ecal.Pool`): `Ecal.Props.C09.no_stuck_task` (a queued task with a live
+      worker: a pool-internal non-finish step is enabled, or every live worker runs a task — the
+      second disjunct is `taskRunning`) and `Ecal.Props.C09.pop_within_bound` (pool-internal steps
+      without a pop strictly decrease `cmu`: the pop comes after boundedly many of them), combined in
+      `Ecal.Props.C09.fair_queued_task_started` (under C09's `Exec.Fair`, with no new call from `N` on —
+      C02's `AddsStopAt N` implies that no `AddTask` is made —, a queued task is popped or the pool has
+      lost all its workers; ≥ 1 worker is C02's standing assumption).
+    NOT proved: the refinement between the two models (C09's `queue`/`pcs = .run` ↔ this model's
+    `queued` monitors / phases with a worker; C09's pool-internal steps between two pops are
+    invisible here). The theorem below is therefore the exact interface, with the pool side as a
+    hypothesis in this model's vocabulary, not a derivation from `Ecal.Pool`. -/
+theorem fairFrom_of_scheduler_and_pool {X : Exec} {N : Nat} (hs : X.SchedFairFrom N) (hp : X.PoolStartsFrom N) :
+    X.FairFrom N :=
+  fairFrom_of_parts hs hp
+
+/-- **the wait returns, from the two sources of fairness**: scheduler fairness for the non-pop engine
+    steps + the pool starting queued tasks (both from tick `N` on), the program adding no work after
+    `N`, every monitor handed over at `N` ⇒ a tick is reached at which every cascade is complete, every
+    waiter released with an exact report, every registered handler run once. (The liveness proof only
+    ever uses fairness from `N` on: `fair_quiescence_from`.) -/
+theorem wait_returns_scheduler_and_pool (X : Exec) {N : Nat} (hs : X.SchedFairFrom N) (hp : X.PoolStartsFrom N)
+    (ha : X.AddsStopAt N) (hN : (X.C N).allHanded) :
+    ∃ n, N ≤ n ∧ ∀ r v, (X.C n).view r = some v →
+      (∀ m ∈ v.mons, m.phase.finished = true) ∧ v.posted = 1 ∧
+      (v.waiting = true → v.released = 1 ∧ ((step v .waitReturns).isSome = true ∨ v.waitReturned = true) ∧
+         allErrors v = expectedReport v) ∧
+      (v.handlerReg = true → v.handlerCalls = 1) := by
+  obtain ⟨n, hn, hq⟩ := fair_quiescence_from X (fairFrom_of_scheduler_and_pool hs hp) ha
+  refine ⟨n, hn, ?_⟩
+  intro r v hv
+  obtain ⟨hw, hnf⟩ := handed_stays_handed X ha hN n hn r v hv
+  exact conc_quiescent_complete (exec_reachable X n) hq hv hw hnf
+
+/-- non-vacuity: the witness execution `wExec` satisfies both parts from tick 9 on (it is fair, so
+    every enabled step — pop or not — is followed by the engine step of the last tick; a queued task
+    is followed by a pop: ticks 9 and 13 pop the two children) -/
+example : wExec.SchedFairFrom 9 ∧ wExec.PoolStartsFrom 9 ∧ wExec.AddsStopAt 9 ∧ (wExec.C 9).allHanded := by
+  refine ⟨?_, ?_, wExec_addsStop, wExec_handed_at_9⟩
+  · intro n _ ⟨r, e, hi, _, hen⟩
+    exact wExec_fair n ⟨r, e, hi, hen⟩
+  · intro n _ hq
+    -- a queued task implies an enabled engine step or … simply: while n ≤ 13 the pop of tick 13 is ahead;
+    -- after tick 13 no task is queued any more
+    by_cases hn : n ≤ 13
+    · refine ⟨13, hn, Or.inl ⟨0, 0, 2, rfl, ?_⟩⟩
+      obtain ⟨e, he, hs⟩ := wExec_no_stutter 13 (by decide)
+      have : wExec.ev 13 = some (.at 0 (.pop 0 2)) := rfl
+      rw [this] at he; cases he
+      rw [hs]; rfl
+    · exfalso
+      exact wExec_no_queued_after_13 n (by omega) hq
+
+/-- **non-vacuity witness of the liveness theorems** (`fair_run_reaches_quiescence`,
+    `wait_returns_fair`, `wait_returns_fair_from`): a concrete, NON-STUTTERING fair execution.
+    `wExec` (Lemmas/CascadeLive.lean) performs `AddEventAndWait` of a root event whose rule adds two
+    child events, one of which fails, on two workers: 26 events, one per tick, every one enabled when
+    attempted (no stutter), every engine step of the cascade among them; afterwards it rests. It is
+    fair, its additions stop at tick 9 with all three monitors handed over, at tick 9 engine work is
+    still outstanding (so fairness is really used), and at tick 26 the system is quiescent with the
+    waiter released, the handler run once and the report = exactly the failing child's rule. -/
+theorem fair_execution_witness :
+    ∃ (X : Exec) (N : Nat), X.Fair ∧ X.AddsStopAt N ∧ (X.C N).allHanded ∧ (X.C N).enabledInternal ∧
+      (∀ n, n < 26 → ∃ e, X.ev n = some e ∧ Conc.stepE (X.C n) e = some (X.C (n + 1))) ∧
+      ¬ (X.C 26).enabledInternal ∧
+      ∃ v, (X.C 26).view 0 = some v ∧ v.mons.length = 3 ∧ v.released = 1 ∧ v.waitReturned = true ∧
+        v.handlerCalls = 1 ∧ allErrors v = [(1, some [0])] := by
+  refine ⟨wExec, 9, wExec_fair, wExec_addsStop, wExec_handed_at_9, ?_, wExec_no_stutter, ?_, ?_⟩
+  · obtain ⟨e, he, hs⟩ := wExec_no_stutter 9 (by decide)
+    have he' : e = .at 0 (.pop 1 1) := by
+      have : wExec.ev 9 = some (.at 0 (.pop 1 1)) := rfl
+      rw [this] at he; cases he; rfl
+    subst he'
+    exact ⟨0, .pop 1 1, rfl, by
+      have hs' : (wExec.C 9).step 0 (.pop 1 1) = some (wExec.C 10) := hs
+      rw [hs']; rfl⟩
+  · rw [wExec_final]; exact wC_quiescent
+  · rw [wExec_final]
+    exact ⟨wEnd, rfl, rfl, rfl, rfl, rfl, by decide⟩
+
+/-- the liveness theorem applied to the witness: it yields a tick at which the cascade is complete -/
+example : ∃ n, 9 ≤ n ∧ ∀ r v, (wExec.C n).view r = some v →
+    (∀ m ∈ v.mons, m.phase.finished = true) ∧ v.posted = 1 ∧
+    (v.waiting = true → v.released = 1 ∧ ((step v .waitReturns).isSome = true ∨ v.waitReturned = true) ∧
+       allErrors v = expectedReport v) ∧ (v.handlerReg = true → v.handlerCalls = 1) :=
+  wait_returns_fair_from wExec wExec_fair wExec_addsStop wExec_handed_at_9
+
 /-- non-vacuity of `wait_returns_fair`: the hypotheses are jointly satisfiable with a cascade that
     has run (a failing rule, a waiter): the execution that rests in the final state is fair -/
 example : ∃ (X : Exec) (N : Nat), X.Fair ∧ X.AddsStopAt N ∧
